@@ -12,7 +12,7 @@ def run(tree, rep, tier):
     T4_edges(rep, T, files)
     flow = Flow(tree)
     flow.describe(rep)
-    K1_loader(rep, flow, T, tier)
+    K1_loader(rep, flow, T, tier, exact=False)
     G3_graphs(rep, flow)
     P_rules(rep, flow, which=("P1", "P2", "P3"))
     rep.trusted += ["Q1", "Q2", "Q3", "Q4"]
